@@ -1,6 +1,7 @@
 import MiniMcmcVerif.Model.Util
 import MiniMcmcVerif.Driver.C09
 import MiniMcmcVerif.Driver.C05
+import MiniMcmcVerif.Driver.C16
 
 open MiniMcmcVerif MiniMcmcVerif.Driver
 
@@ -9,6 +10,7 @@ def dispatch (line : String) : String :=
   | [] => ""
   | "c09" :: args => c09 args
   | "c05" :: args => c05 args
+  | "c16" :: args => c16 args
   | _ => "bad-op"
 
 partial def loop (h : IO.FS.Stream) (out : IO.FS.Stream) : IO Unit := do
